@@ -247,7 +247,8 @@ theorem pickLoop_spec : ∀ (fuel : Nat) (st st' : St) (var : Nat), pickLoop fue
     exact ⟨CoreEq.refl _, rfl, rfl, Or.inl rfl⟩
   | succ fuel ih =>
     intro st st' var hs
-    unfold pickLoop at hs
+    rw [pickLoop_eq_ref] at hs
+    unfold pickLoopRef at hs
     split at hs
     · simp only [Prod.mk.injEq] at hs
       obtain ⟨rfl, rfl⟩ := hs
@@ -259,7 +260,8 @@ theorem pickLoop_spec : ∀ (fuel : Nat) (st st' : St) (var : Nat), pickLoop fue
         simp only [Prod.mk.injEq] at hs
         obtain ⟨rfl, rfl⟩ := hs
         exact ⟨⟨rfl, rfl, rfl, rfl, rfl, rfl, rfl, rfl, rfl⟩, rfl, rfl, Or.inr (by simpa [valAt] using hu)⟩
-      · obtain ⟨e, w, b, r⟩ := ih _ _ _ hs
+      · rw [← pickLoop_eq_ref] at hs
+        obtain ⟨e, w, b, r⟩ := ih _ _ _ hs
         exact ⟨⟨e.nVars, e.nOrig, e.asm, e.clauses, e.vals, e.levels, e.trail, e.trailLim, e.propHead⟩, w, b, r⟩
 
 /-- the activity bumps touch the activities and the heap only -/
